@@ -19,6 +19,10 @@ every option of warp_image (kde_sigma, upsample_factor, output_shape) and biline
 interp1d on non-straight data), several align_translation passes with max/min_image_shift, the
 running reference of the measuring loop per step, translation equivariance of the coordinates and
 the weight sum after every pass, stacks of which only a prefix is identical.
+
+Round-8 extension: FRAME SIZE for the fixed-point clause — identical stacks of frames a few hundred pixels on a side
+(non-square; textures with a non-trivial pad level) with every pad_value form; identical inputs resampled to different
+canvases before the first pass are a reported violation (implementation oracle only for these sizes).
 """
 from __future__ import annotations
 
@@ -111,6 +115,8 @@ FORMS = ["list-nd", "array3d", "list-ds2d", "ds3d"]            # every input val
 ANGLE_TYPES = ["list", "list", "ndarray", "int-list", "int-array"]
 INT_ANGLES = [0, 90, 180, 270, 45, 30, 17, 123, 359, 222]
 BIG_PADS = [1.5, 2.0, 3.5, 5.0]
+LARGE_QUANTILES = [0.3, 0.5, 0.25, 0.75, 0.9]
+LARGE_PAD_VALUES = ["median", "mean", "min", "max", 0.3, "list", 0, 1.0, 0.5]      # every form validate_pad_value accepts
 OUTSIDE_ANGLES = [360.0, 450.0, -30.0, -90.0, 725.25, -1234.5, 1080.0, 359.99999 + 360.0]
 
 
@@ -241,6 +247,38 @@ def gen_fixed_cases(ctx: Ctx):
         if i % 7 == 5:
             cases[-1]["pre_angles"] = [float(r.uniform(0.0, 360.0))] * n
             cases[-1]["pre_K"] = r.choice([1, 3])
+    # ---- round 8: FRAME SIZE.  "for all image shapes": frames of a few hundred pixels on a side (beyond the 256 x 256 of
+    # the usual test images; non-square, odd / even) and intermediate ones, identical stacks of 2..4, every pad_value form.
+    # The textures have a NON-TRIVIAL pad level: half vacuum / half lattice (the median sits between two levels, the mean
+    # is far from every pixel) or a smooth modulation + ramp; generated after the small cases (their random stream is
+    # unchanged).  Implementation oracle only (the exact-Q model does not evaluate 1e5-pixel splats).
+    n_large = ctx.budget(2, 10)
+    for j in range(n_large):
+        if j % 2 == 0:
+            H, W = r.randint(260, 340), r.randint(260, 340)          # both sides beyond 256
+            while H == W:
+                W = r.randint(260, 340)
+        else:
+            H, W = r.choice([(r.randint(96, 256), r.randint(96, 256)), (r.randint(24, 64), r.randint(260, 400)),
+                             (r.randint(260, 400), r.randint(24, 64)), (r.randint(257, 300), r.randint(257, 300))])
+        n = 2 + ((j + r.randrange(3)) % 3)
+        if j % 2 == 0:
+            # the order statistics of the frame (the default "median" and the float quantiles)
+            pv = r.choice(["median", "median", LARGE_QUANTILES[r.randrange(len(LARGE_QUANTILES))]])
+        else:
+            pv = LARGE_PAD_VALUES[(j // 2 + r.randrange(len(LARGE_PAD_VALUES))) % len(LARGE_PAD_VALUES)]
+        if pv == "list":
+            pv = [round(r.uniform(0.0, 250.0), 3)] * n
+        a0 = r.choice(SPECIAL_ANGLES) if r.random() < 0.3 else r.uniform(0.0, 360.0)
+        cases.append({
+            "H": H, "W": W, "n": n, "K": 1 + r.randrange(4), "angles": [a0] * n,
+            "pad": float(r.choice([0.125, 0.25, 0.25, 0.1875])), "pad_value": pv, "sigma": 0.5,
+            "identical": True, "prefix": 0, "img_seed": r.randrange(1 << 30),
+            "texture": "edge" if (j % 2 == 0 or r.random() < 0.5) else "smooth", "edge_axis": r.randrange(2),
+            "form": FORMS[(j + r.randrange(4)) % 4], "angle_type": "list", "outside": False,
+            "passes": 1 if ctx.quick else 1 + (j % 2), "max_image_shift": [32, None, 6.0][j % 3],
+            "min_image_shift": None, "large": True,
+        })
     return cases
 
 
@@ -248,9 +286,26 @@ def gen_fixed_cases(ctx: Ctx):
 # running the implementation
 
 
+def _texture(case, g):
+    """frames of realistic size with a non-trivial pad level (identical-stack cases of round 8)"""
+    H, W = case["H"], case["W"]
+    rr, cc = np.mgrid[0:H, 0:W]
+    if case["texture"] == "edge":
+        # half vacuum, half crystalline sample: the median sits between the two levels
+        p = float(g.uniform(6.0, 12.0))
+        lattice = 200.0 + 80.0 * np.cos(2 * np.pi * rr / p) * np.cos(2 * np.pi * cc / p)
+        vac = (cc < W // 2) if case.get("edge_axis", 1) == 1 else (rr < H // 2)
+        return np.where(vac, 10.0, lattice) + g.normal(0.0, 2.0, (H, W))
+    return (100.0 + 50.0 * np.sin(rr / float(g.uniform(5.0, 9.0))) * np.cos(cc / float(g.uniform(8.0, 13.0)))
+            + 30.0 * (cc / W) + g.normal(0.0, 5.0, (H, W)))
+
+
 def make_stack(case):
     g = np.random.default_rng(case["img_seed"])
     H, W, n = case["H"], case["W"], case["n"]
+    if case.get("texture"):
+        im = _texture(case, g)
+        return [im.copy() for _ in range(n)]
 
     def one():
         im = g.random((H, W))
@@ -625,9 +680,29 @@ def check_fixed_point(ctx: Ctx, case, up, sigma):
     warped = np.array(dc.images_warped.array)
     for i in range(1, m):
         if not np.array_equal(warped[0], warped[i], equal_nan=True):
-            return ("identical-images-warp-differently",
-                    "identical images with the same scan direction are resampled differently (image 0 vs %d, max "
-                    "difference %.3g)" % (i, float(np.abs(warped[0] - warped[i]).max())))
+            # FIRST pass: the inputs ARE identical (same pixels, same scan direction, one pad_value argument), so resampled
+            # canvases that differ are not a lost premise but a broken setting of the clause: reported, together with
+            # what align_translation then measures on them
+            diff = float(np.abs(warped[0] - warped[i]).max())
+            moved = 0.0
+            try:
+                before, after, shifts = run_align(dc, up, case.get("min_image_shift"), case.get("max_image_shift", 32))
+                moved = max(float(np.abs(a - b).max()) for a, b in zip(before, after))
+                tail = "; align_translation(upsample_factor=%d) then measures shifts %s and moves the knots by %.4g px" % (
+                    up, shifts, moved)
+            except Exception as e:       # noqa: BLE001 - diagnosis only
+                tail = "; align_translation then raises %s" % type(e).__name__
+            pvs = "n/a"
+            try:
+                pvs = [float(v) for v in dc.pad_value]
+            except Exception:            # noqa: BLE001 - diagnosis only
+                pass
+            return ("fixed-point-knots-moved" if (m == n and not moved <= KNOT_ATOL) else "identical-images-warp-differently",
+                    "stack of %d identical %dx%d images (%s), one scan direction %r deg, pad_fraction %r, pad_value=%r, "
+                    "%d knot(s), kde_sigma %r: the images are resampled to DIFFERENT canvases before any alignment (image 0 "
+                    "vs %d: max difference %.3g; pad levels used %s)%s"
+                    % (n if m == n else m, case["H"], case["W"], case.get("texture") or "noise+blob", case["angles"][0],
+                       case["pad"], case["pad_value"], case["K"], sigma, i, diff, pvs, tail))
     start = [np.array(k, dtype=float) for k in dc.knots]
     mis = case.get("min_image_shift")
     desc0 = ("stack of %d %s %dx%d images, scan direction %r deg, pad_fraction %r, %d knot(s), kde_sigma %r, "
@@ -1062,6 +1137,21 @@ def check_fixed(ctx: Ctx):
         combos = [(1, sigmas[ci % len(sigmas)]), (ups[1 + ci % 5], sigmas[(ci + 1) % len(sigmas)])]
         if not ctx.quick:
             combos += [(u, s) for u in ups[1:] for s in sigmas[:2]]
+        if case.get("large"):
+            # frames of realistic size: one run in the quick tier, three otherwise (each costs 1-3 s)
+            j = ci
+            combos = [([8, 1, 4, 2, 16, 3][j % 6], [0.5, 1.0, 0.25, 2.0][j % 4])]
+            if not ctx.quick:
+                combos += [(1 if combos[0][0] != 1 else 2, 1.0), (16, 0.25)]
+            px = case["H"] * case["W"]
+            ctx.dist("fixed-large/frame=%s" % ("sides>256(%s)" % ("nonsquare" if case["H"] != case["W"] else "square")
+                                                if min(case["H"], case["W"]) > 256 else
+                                                "one-side>256" if max(case["H"], case["W"]) > 256 else "sides-96..256"))
+            ctx.dist("fixed-large/pixels=%s" % ("<=16k" if px <= 1 << 14 else "16k..64k" if px <= 1 << 16 else ">64k"))
+            ctx.dist("fixed-large/texture=%s" % case["texture"])
+            ctx.dist("fixed-large/pad_value=%s" % ("list" if isinstance(case["pad_value"], list) else
+                                                    "quantile-%r" % case["pad_value"]
+                                                    if not isinstance(case["pad_value"], str) else case["pad_value"]))
         for up, sigma in combos:
             res = check_fixed_point(ctx, case, up, sigma)
             n_run += 1
@@ -1109,7 +1199,9 @@ def run(ctx: Ctx):
         "weight sums after every pass); every option of warp_image (kde_sigma incl. 0, upsample_factor 0.5..4, "
         "output_shape) and bilinear_kde (lowpass_filter, max_batch_size 1..>N, return_pix_count); fixed-point cases: "
         "stacks of 2..4 identical images (or with only an identical prefix), same direction, upsample factors "
-        "1,2,3,4,8,16, KDE widths 0.25..2, 1-3 passes, max/min_image_shift; a case is distinct by (shape, knots, stack "
+        "1,2,3,4,8,16, KDE widths 0.25..2, 1-3 passes, max/min_image_shift; plus identical stacks of REALISTIC FRAME SIZE (both "
+        "sides 260..340 non-square / one side up to 400 / 96..256; half-vacuum-half-lattice or smooth texture; pad_value "
+        "median, quantiles, mean, min, max, 0/1, list; shares under fixed-large/*), implementation oracle only; a case is distinct by (shape, knots, stack "
         "size, angles, pad[, upsample, sigma]) and non-trivial unless it is a 1x1 image or a square image at 0 degrees")
     ctx.assumptions += [
         "scipy.interpolate.interp1d(kind='quadratic'|'cubic') given exactly k+1 points evaluates the interpolating "
